@@ -14,7 +14,7 @@ use crate::verif_spec as spec;
 // @funcs HostCluster::{rt_index,rb_index,rb_slice_index,rb_slice_key,rb_slice_host_start,rb_slice_host_end,rb_host_start,rb_host_end,rb_slice_off_in_table,cluster_off_from_slice} Qcow2Info::rb_slice_entries Qcow2Info::rb_entries
 // @stub alloc::fmt::format -> String::new()
 #[kani::proof]
-#[kani::stub(alloc::fmt::format, fmt_stub)]
+#[kani::stub(std::fmt::format, fmt_stub)]
 fn c15_host_cluster() {
     let g = any_geo();
     let info = info_of(&g, kani::any(), false, false, false);
